@@ -460,6 +460,9 @@ impl Prop for C08 {
     fn id(&self) -> &'static str {
         "C08"
     }
+    fn supplement(&self, tier: Tier, seed: u64) -> (Vec<crate::world::Violation>, Value) {
+        super::common::msim_supplement("C08", "budget", tier, seed)
+    }
     fn engine(&self) -> &'static str {
         "tsim (shuttle)"
     }
